@@ -2,16 +2,126 @@
 
 HOOK_COMMITS = ['83a615d', '70f6a25', '2ebdcd0']
 
+# properties whose checks have been run to completion on the unchanged tree (exit 0) and are claimed in MANIFEST.json
+READY = ['C04', 'C05', 'C09', 'C17']
+
 COMMON_NOTE = ('Trusted: Kani 0.68 MIR->goto translation and CBMC 6.11/CaDiCaL; the specification functions written in the '
-               'harness files from the property statement; the stubs and assumptions listed in the evidence file. '
-               'Every verdict is "holds for all values within the stated bounds", nothing is claimed outside them.')
+               'harness files from the property statement; the stubs and assumptions listed per harness in the evidence file. '
+               'Every verdict is "holds for all values within the stated bounds", nothing is claimed outside them. ')
+
+TECH = 'bounded model checking of the real Rust code with Kani/CBMC (SAT): symbolic inputs and pre-states, one solver query per harness'
 
 PROPS = {
+    'C01': {
+        'text': ('Differential bounded model checking of the real Z80::emulate against an independent reference Z80 transducer: '
+                 'symbolic opcode bytes of every page, every register incl. F/Q/MEMPTR, every byte the bus returns; one instruction '
+                 'per query from an arbitrary CPU state, full post-state and ordered bus-event list compared (inductive for sequences).'),
+        'note': COMMON_NOTE + 'The reference model hooks/z80/refz80.rs is the oracle; it is validated natively against ZEXALL.',
+        'technique': TECH + '; differential against a reference Z80 model',
+    },
+    'C02': {
+        'text': ('Bounded model checking of three consecutive real emulate() calls from an arbitrary CPU state with symbolic INT/NMI '
+                 'levels at every boundary, compared with the reference model extended by the interrupt acceptance rules of the statement.'),
+        'note': COMMON_NOTE + 'NMI directly after EI/DI or inside a prefix chain is outside the claim.',
+        'technique': TECH + '; differential against a reference Z80 model with interrupt rules',
+    },
+    'C03': {
+        'text': ('Same solver queries as C01/C02: every bus event carries kind, address and T-states and is compared with the documented '
+                 'machine-cycle list of the reference model; per-instruction totals asserted against a second documented table.'),
+        'note': COMMON_NOTE + 'Position of the 7-T acknowledge cycle relative to the stack writes at interrupt entry is not compared.',
+        'technique': TECH + '; differential against documented machine-cycle tables',
+    },
+    'C04': {
+        'text': ('Bounded model checking of the real ZXController bus primitives: one memory cycle / internal T-state run / port read / '
+                 'port write from every frame T-state, every address or port, both machines and every reachable paging latch, elapsed '
+                 'time compared with the closed contention formula and the four ULA port patterns of the statement.'),
+        'note': COMMON_NOTE + 'Composition to whole instructions relies on C03 (the CPU issues exactly the documented primitives). Screen rendering is stubbed out.',
+    },
+    'C05': {
+        'text': ('Bounded model checking of the real timing constants (builder chain), the INT line predicate for every frame T-state, one '
+                 'clock step from any time (conservation invariant, inductive) and the real Emulator::emulate_frames loop with the CPU '
+                 'abstracted to symbolic instruction lengths (<= 4 steps quick / 6 thorough).'),
+        'note': COMMON_NOTE + '"Interrupted exactly once per frame" for arbitrary programs follows from these plus C02, it is not run as a whole frame.',
+    },
+    'C06': {
+        'text': ('Bounded model checking of the real paging path: any 3 port writes (symbolic ports and data) against a ghost latch, '
+                 'window aliasing with a symbolic read address after a write through every window/bank, ROM image selection with a witness byte.'),
+        'note': COMMON_NOTE + 'RAM stores are made at literal indices (offset class {0,0x1AFF,0x3FFF}, bank at 0xC000 enumerated) because CBMC cannot afford 128K-array stores at symbolic indices.',
+    },
+    'C07': {
+        'text': ('Bounded model checking of the real read_io/write_io for every 16-bit port, both machines, Kempston joystick / mouse / '
+                 'host extender present or not (extender predicate symbolic), against the partial-decode predicates of the statement; '
+                 'floating bus checked against the fetch window with a display-memory witness; AY ports in the sound,ay build.'),
+        'note': COMMON_NOTE + 'Ports selecting two devices are excluded as the statement says; floating-bus position tolerance +-4 T.',
+    },
+    'C08': {
+        'text': ('Bounded model checking of the real screen code with a symbolic witness pixel: address layout bijection, decode of bitmap/attribute/'
+                 'BRIGHT/FLASH/bank for the witness pixel, render schedule relative to the beam (inductive step), frame end and flash counter, '
+                 'and every write path (CPU write through any window, poke, snapshot refresh loop) reaching the display copy.'),
+        'note': COMMON_NOTE + 'Whole-frame equality is by the witness pixel being arbitrary; RAM array stores are cut in the write-path queries.',
+    },
     'C09': {
         'text': ('Bounded model checking of the real ZXBorder code: beam arithmetic for every T-state of the frame, both machines and a '
-                 'symbolic witness pixel; the fill loop against its range semantics (<= 8 px quick); one whole frame of <= 3 symbolic '
+                 'symbolic witness pixel; the fill loop against its range semantics (<= 8 px); one whole frame of <= 3 symbolic '
                  'border writes from the frame-start invariant (inductive over frames), colour of a symbolic witness pixel compared '
                  'with the latest-write-before-beam specification within 16 px.'),
-        'note': COMMON_NOTE + ' fill_to is replaced by its range summary in the frame-protocol query (justified by the fill-range query).',
+        'note': COMMON_NOTE + 'fill_to is replaced by its range summary in the frame-protocol query (justified by the fill-range query).',
+    },
+    'C10': {
+        'text': ('Bounded model checking of the real fast_load_tap / Tap block reader against an executable model of the ROM LD-BYTES routine '
+                 'on symbolic tapes (<= 10 bytes) and request parameters; byte-stream harnesses at the 128-byte buffer boundaries.'),
+        'note': COMMON_NOTE + 'The LD-BYTES model is transcribed from the ROM listing; blocks longer than the stated bounds are outside.',
+    },
+    'C11': {
+        'text': ('Bounded model checking of one real Tap::process_clocks call from an arbitrary generator state (pulse table, countdown, '
+                 'lateness invariant) and of asset-touching transitions on tiny symbolic tapes.'),
+        'note': COMMON_NOTE + 'The real-time ROM loader corollary is outside.',
+    },
+    'C12': {
+        'text': ('Bounded model checking of the real deck commands: command words of <= 4 over {stop, play, rewind, advance} from an '
+                 'arbitrary generator state against the cassette-deck specification.'),
+        'note': COMMON_NOTE,
+    },
+    'C13': {
+        'text': ('Bounded model checking of real sna::save followed by sna::load through a sparse witness recorder/asset: every register, '
+                 'paging latch and a witness RAM byte (bank enumerated) symbolic; receiver in an arbitrary dirty state.'),
+        'note': COMMON_NOTE + 'RAM offsets are from a concrete class; page transfers are summarised by the sparse asset.',
+    },
+    'C14': {
+        'text': ('Bounded model checking of the real SNA/SZX/SCR loaders against independent format encoders: one header / chunk per query, '
+                 'receiver pre-state arbitrary, model mismatch cases.'),
+        'note': COMMON_NOTE + 'zlib-compressed SZX pages (miniz_oxide inflate) are outside the claim.',
+    },
+    'C15': {
+        'text': ('Bounded model checking of the real loader units on arbitrary bytes (<= 40 symbolic bytes per unit, symbolic sizes) with a '
+                 'fault-injecting asset: Kani\'s panic/overflow/index checks and unwinding assertions are the property.'),
+        'note': COMMON_NOTE + 'inflate/LH5/gzip bodies and inputs longer than the bounds are outside.',
+    },
+    'C16': {
+        'text': ('Two-run product (self-composition) queries over the real frame loop and bus step: different host slicing, stopwatch '
+                 'readings, host-only state and read chunking must give equal emulated state.'),
+        'note': COMMON_NOTE + 'CPU abstracted to symbolic instruction lengths in the frame-loop product.',
+    },
+    'C17': {
+        'text': ('Bounded model checking of one symbolic input event from an arbitrary consistent state (abstraction function from held-control '
+                 'sets to the three key matrices, joystick byte and mouse ports): inductive for every event history; ULA read AND-combination in C07\'s read query.'),
+        'note': COMMON_NOTE + 'Known finding KF-C17-1 (Sinclair joystick 2 down) is excluded from the main query and witnessed by its own failing query.',
+    },
+    'C18': {
+        'text': ('Bounded model checking of the real AY register decode, tone/noise/envelope counters (one tick from arbitrary state; 66 envelope '
+                 'expiries for all 16 shapes), mixer gate and DAC tables, stereo pan arguments, the resampler tick rate at enumerated sample rates, '
+                 'and port read-back through the real controller ports.'),
+        'note': COMMON_NOTE + 'The float DSP chain (cubic interpolator, 192-tap FIR, DC filter) is outside: output in Hz / RMS is not decided.',
+    },
+    'C19': {
+        'text': ('Bounded model checking of the real mixer step and frame end (queue arithmetic, sample level = volume x speaker/MIC level) at '
+                 'small rates, the sample-cursor float arithmetic at enumerated real sample rates with symbolic frame time, and the port write '
+                 'latching the beeper bits.'),
+        'note': COMMON_NOTE + 'Rates not in the list and the AY contribution to amplitude are outside.',
+    },
+    'C20': {
+        'text': ('Bounded model checking of the real vtx Player with a recording sound-chip back end: register-write schedule, total length and '
+                 'play() chunking independence for <= 3 frames x <= 3 samples, mono and stereo.'),
+        'note': COMMON_NOTE + 'The register-major to frame-major transposition in Vtx::load sits behind the LH5 decoder and is outside.',
     },
 }
